@@ -1868,13 +1868,21 @@ class ProppatchMethod(Method):
             yield Status(request.path, "404 Not Found")
             return
         et = await _readXmlBody(request, "{DAV:}propertyupdate", strict=app.strict)
-        propstat = []
+        # Reject a bad body before applying any of its instructions
+        instructions = []
         for el in et:
             if el.tag not in ("{DAV:}set", "{DAV:}remove"):
                 nonfatal_bad_request(
                     f"Unknown tag {el.tag} in propertyupdate", app.strict
                 )
                 continue
+            if [child.tag for child in el] != ["{DAV:}prop"]:
+                raise BadRequestError(
+                    f"Expected a single {{DAV:}}prop element in {el.tag}"
+                )
+            instructions.append(el)
+        propstat = []
+        for el in instructions:
             propstat.extend(
                 [
                     ps
